@@ -200,6 +200,7 @@ class Facts:
         self.fns = {}
         self.enums = {}
         self.consts = {}
+        self.strconsts = {}
         self.meta = {}
         self._bodies = {}
         floors = FLOORS_A if config == "A" else FLOORS_B
@@ -240,6 +241,8 @@ class Facts:
                     self.enums[d["enum"]] = {int(v): n for v, n in d["variants"]}
                 elif "const" in d:
                     self.consts[d["const"]] = int(d["value"])
+                elif "strconst" in d:
+                    self.strconsts[d["strconst"]] = d["value"]
                 elif "meta" in d:
                     self.meta[d["meta"]] = d
         for crate, floor in floors.items():
